@@ -205,11 +205,73 @@ func ruleU2(c *Ctx) {
 	c.check(patIn(src, "if @p.URIType == TELuri { @p.User = @p.Host @p.Host.Reset() }"), "U2", "tel-swap", fd.Pos(), "for tel: the number is moved to User and Host is emptied")
 }
 
+// U3: the scheme-specific fix-up cannot be bypassed. Every success return of ParseURI is dominated by the test of
+// the parsed scheme (the branch that moves a tel: number from the host to the user slot): an early success return
+// from the end-of-input switch would report a tel: URI with its number in the wrong component.
+func ruleU3(c *Ctx) {
+	fn := c.SFuncs["ParseURI"]
+	if fn == nil || len(fn.Params) < 2 {
+		c.fail("U3", "ParseURI", token.NoPos, "not found")
+		return
+	}
+	puri := fn.Params[1]
+	var tests []*ssa.BasicBlock
+	for _, b := range fn.Blocks {
+		iff, ok := b.Instrs[len(b.Instrs)-1].(*ssa.If)
+		if !ok {
+			continue
+		}
+		bo, ok := iff.Cond.(*ssa.BinOp)
+		if !ok || (bo.Op != token.EQL && bo.Op != token.NEQ) {
+			continue
+		}
+		ld, ok := bo.X.(*ssa.UnOp)
+		if !ok || ld.Op != token.MUL {
+			continue
+		}
+		fa, ok := ld.X.(*ssa.FieldAddr)
+		if !ok || fa.X != ssa.Value(puri) {
+			continue
+		}
+		if _, isC := constIntOf(bo.Y); !isC {
+			continue
+		}
+		if strings.HasSuffix(fa.X.Type().String(), "PsipURI") && strings.HasSuffix(ld.Type().String(), "URIScheme") {
+			tests = append(tests, b)
+		}
+	}
+	if len(tests) == 0 {
+		c.fail("U3", "scheme-test", fn.Pos(), "no test of the parsed scheme found in ParseURI")
+		return
+	}
+	n := 0
+	for _, b := range fn.Blocks {
+		r, ok := b.Instrs[len(b.Instrs)-1].(*ssa.Return)
+		if !ok || len(r.Results) < 1 {
+			continue
+		}
+		k, isC := constIntOf(r.Results[0])
+		if !isC || k != 0 {
+			continue
+		}
+		n++
+		dom := false
+		for _, t := range tests {
+			if t.Dominates(b) {
+				dom = true
+			}
+		}
+		c.check(dom, "U3", "success-return#"+itoa(n), r.Pos(), "this success return is dominated by the test of the parsed scheme (tel: fix-up): no success path bypasses it")
+	}
+	c.check(n >= 1, "U3", "success-returns", fn.Pos(), fmt.Sprintf("%d success return(s) found", n))
+}
+
 func init() {
 	register(&PropDef{
 		ID: "C14",
 		Rules: []Rule{
 			{"U1", "from the extracted ParseURI automaton (18 states x byte classes, loop-carried locals tracked): every transition that closes a component does X.Set(s,i) at the delimiter and sets s = i+1; a late '@' rebuilds User/Pass from (Host.Offs, passOffs, passOffs+1, i), resets every later component, PortNo and the port accumulator, and restarts at the host; all sites record the password candidate as the ':' position; the end-of-input switch handles every state and closes the open component with Set(s,i)", ruleU1},
+			{"U3", "every success return of ParseURI is dominated by the test of the parsed scheme that performs the tel: fix-up (number moved from the host to the user slot): no early success return bypasses it", ruleU3},
 			{"U2", "scheme table: the three little-endian constants equal sip: / sips / tel: lower-cased, the fold precedes the switch, sips needs uri[4]==':' under the length guard, tel: moves the number to User", ruleU2},
 		},
 		Assumptions: []string{"state constants are the declared u* constants"},
